@@ -182,7 +182,7 @@ pub fn generate_history(corpus: &[Project], seed: u64, property: &str, flavour: 
     if watch || rng.chance(3, 4) {
         ops.push(Op::Rebuild { api: "string".into() });
         if rng.chance(1, 4) {
-            ops.push(Op::Checkpoint { fresh_hash_seeds: seeds2(&mut rng) });
+            ops.push(Op::Checkpoint { fresh_hash_seeds: seeds2(&mut rng), diag_first: rng.chance(1, 3) });
         }
     }
 
@@ -276,7 +276,7 @@ pub fn generate_history(corpus: &[Project], seed: u64, property: &str, flavour: 
         }
         active_faults = still;
         if rng.chance(p_checkpoint, 8) {
-            ops.push(Op::Checkpoint { fresh_hash_seeds: seeds2(&mut rng) });
+            ops.push(Op::Checkpoint { fresh_hash_seeds: seeds2(&mut rng), diag_first: rng.chance(1, 3) });
         }
     }
     // heal: faults off, everything that changed is delivered, final checkpoint
@@ -295,7 +295,7 @@ pub fn generate_history(corpus: &[Project], seed: u64, property: &str, flavour: 
             ops.push(Op::Update { f });
         }
     }
-    ops.push(Op::Checkpoint { fresh_hash_seeds: seeds2(&mut rng) });
+    ops.push(Op::Checkpoint { fresh_hash_seeds: seeds2(&mut rng), diag_first: rng.chance(1, 3) });
 
     Run {
         engine: "ssim".into(),
@@ -425,7 +425,7 @@ pub fn synthetic_project(seed: u64) -> Project {
     let poison = rng.chance(1, 3);
     let mut bodies: Vec<String> = vec![];
     let mut object_fields: Vec<usize> = vec![0; n_types]; // number of f<k> fields when Ti is an object
-    let prim = ["string", "number", "boolean", "null", "\"lit\"", "42", "true", "string[]", "bigint"];
+    let prim = ["string", "number", "boolean", "null", "\"lit\"", "42", "true", "string[]", "unknown", "any", "undefined", "bigint"];
     let mut enum_decl = String::new();
     let use_enum = rng.chance(1, 4);
     if use_enum {
@@ -530,6 +530,17 @@ pub fn synthetic_project(seed: u64) -> Project {
     }
     if rng.chance(1, 3) {
         extra_decls.push("export const CONFIG = { mode: \"fast\", retries: 3, nested: { on: true, tags: [\"a\", \"b\"] } } as const;".into());
+        if rng.chance(1, 10) {
+            // constants that mention each other / themselves
+            extra_decls.push("export const LOOP_A = { name: \"a\", other: LOOP_B } as const;".into());
+            extra_decls.push("export const LOOP_B = { name: \"b\", other: LOOP_A } as const;".into());
+            extra_decls.push("export type Loop = typeof LOOP_A;".into());
+            extra_keys.push("Loop: Loop".into());
+        }
+        if n_files >= 2 && rng.chance(1, 6) {
+            extra_decls.push(format!("export type ViaImport = typeof import(\"./m1\").{}.inner;", ["CONFIG", "Missing", "T0"][rng.below(3)]));
+            extra_keys.push("ViaImport: ViaImport".into());
+        }
         extra_decls.push("export type Config = typeof CONFIG;".into());
         extra_decls.push("export type ConfigKey = keyof typeof CONFIG;".into());
         extra_decls.push("export type Mode = (typeof CONFIG)[\"mode\"];".into());
